@@ -454,7 +454,7 @@ def term_dim(p, axis, shapes):
             if p.args[1] == axis:
                 return ("+",) + tuple(ds) if all(d is not None for d in ds) else None
             return next((d for d in ds if d is not None), None)
-        if p.op in ("softplus", "sigmoid", "tanh", "abs", "neg"):
+        if p.op in ("softplus", "sigmoid", "tanh", "abs", "neg", "bern"):
             return term_dim(p.args[0], axis, shapes)
     if isinstance(p, T.Exp):
         return term_dim(p.arg, axis, shapes)
@@ -477,7 +477,27 @@ def distribute_cat(term, shapes):
             xs = _cat_parts(a.args[1], -1)
             if xs is not None and term_dim(a.args[1], -2, shapes) is not None:
                 return T.app("cat", tuple(T.app("matmul", a.args[0], x) for x in xs), -1)
-        if a.op in ("softplus", "sigmoid", "tanh"):
+        if a.op == "index" and len(a.args[1]) == 2 and a.args[1][0] == "ellipsis" and isinstance(a.args[1][1], tuple) and a.args[1][1] and a.args[1][1][0] == "slice" and a.args[1][1][3] is None:
+            # a slice of the concatenated axis that falls on segment boundaries: those segments
+            xs = _cat_parts(a.args[0], -1)
+            if xs is not None:
+                ds = [term_dim(x, -1, shapes) for x in xs]
+                if all(d is not None for d in ds):
+                    def _dt(d):
+                        if isinstance(d, tuple) and d and d[0] == "+":
+                            return sum((_dt(q) for q in d[1:]), T.ZERO)
+                        return T.sym(d) if isinstance(d, str) else T.const(d)
+
+                    cum = [T.ZERO]
+                    for d in ds:
+                        cum.append(cum[-1] + _dt(d))
+                    lo, hi = a.args[1][1][1], a.args[1][1][2]
+                    lo = T.ZERO if lo is None else T.P(lo)
+                    hi = cum[-1] if hi is None else T.P(hi)
+                    if lo in cum and hi in cum and cum.index(lo) < cum.index(hi):
+                        seg = xs[cum.index(lo):cum.index(hi)]
+                        return seg[0] if len(seg) == 1 else T.app("cat", tuple(seg), -1)
+        if a.op in ("softplus", "sigmoid", "tanh", "bern"):
             arg = a.args[0]
             xs = _cat_parts(arg, -1)
             if xs is None and isinstance(arg, T.Poly) and len(arg.terms) > 1:
@@ -571,6 +591,55 @@ def shape_is(v, want):
     if any(str(d) == "?" for d in sh):
         return None
     return sh == tuple(want)
+
+
+def affine_pairs(term):
+    """{(weight symbol, bias symbol)} of every sub-term f(x W^T + q) (f = sigmoid / softplus, W and q plain parameter symbols)
+    anywhere inside `term`: which bias each weight matrix is combined with."""
+    out = set()
+    for a in (term.all_atoms() if isinstance(term, T.Poly) else []):
+        if isinstance(a, T.App) and a.op in ("sigmoid", "softplus") and isinstance(a.args[0], T.Poly) and len(a.args[0].terms) == 2:
+            w = q = None
+            for m2, c2 in a.args[0].terms.items():
+                if c2 != 1 or len(m2) != 1 or m2[0][1] != 1:
+                    w = q = None
+                    break
+                a2 = m2[0][0]
+                if isinstance(a2, T.Sym):
+                    q = a2
+                elif isinstance(a2, T.App) and a2.op == "matmul" and isinstance(a2.args[1], T.Poly):
+                    ta = a2.args[1].single_atom()
+                    wa = ta.args[0].single_atom() if isinstance(ta, T.App) and ta.op == "t" and isinstance(ta.args[0], T.Poly) else None
+                    if isinstance(wa, T.Sym):
+                        w = wa
+            if w is not None and q is not None:
+                out.add((w.name, q.name))
+    return out
+
+
+def stacked_layer_verdict(got, want, shapes):
+    """A value written with concatenated weights / biases against its reference: ('equal',) after pushing the layers apart
+    (for all sizes), ('pairing', text) when - in the instance where the concatenated segments have equal sizes - a weight
+    matrix meets another layer's bias, else None."""
+    if got is None or want is None:
+        return None
+    g1 = distribute_cat(got, shapes)
+    if g1 == want:
+        return ("equal",)
+    sizes = {str(sh[0]) for nm_, sh in shapes.items() if len(sh) == 2}
+    if len(sizes) != 2:
+        return None
+    keep = sorted(sizes)[0]
+    eq = {nm_: tuple(keep if str(x) in sizes else x for x in sh) for nm_, sh in shapes.items()}
+    g2 = distribute_cat(got, eq)
+    if g2 == got or g2 == want:
+        return None
+    pg, pw = affine_pairs(g2), affine_pairs(want)
+    if pg and pw and pg != pw and {w for w, _ in pg} == {w for w, _ in pw} and {q for _, q in pg} == {q for _, q in pw}:
+        wantd = dict(pw)
+        bad = sorted((w, q) for w, q in pg if wantd.get(w) != q)
+        return ("pairing", "; ".join("%s is combined with %s, expected %s" % (w, q, wantd.get(w)) for w, q in bad))
+    return None
 
 
 def diff_verdict(d):
@@ -707,12 +776,16 @@ def check_index_truthiness(ck, rule, inst, site, paths, what="rotated sites"):
 def some_selected(p, where=""):
     """Did path p decide that a numpy.where(...) selection (made in a function whose site contains `where`) is
     non-empty?  True / False / None (no such decision on the path).  The count is the named dimension nnz<k>@site."""
+    # the selections made while `where` was running - in that function itself or in a helper it calls (by call stack, not by the
+    # name of the function the call is written in)
+    sel_sites = {c[3] for c in getattr(p.interp, "ext_calls", []) if len(c) > 5 and str(c[0]).split(".")[-1] in ("where", "flatnonzero", "nonzero", "argwhere") and (not where or within(c, where))}
+
     def pred(key):
         if key[0] not in ("eq", "gt"):
             return False
         a, b = key[1], key[2]
         sy = _syms(a) | _syms(b)
-        return any(s.startswith("nnz") and where in s for s in sy) and (a.is_zero() or b.is_zero())
+        return any(s.startswith("nnz") and (where in s or s.split("@", 1)[-1] in sel_sites) for s in sy) and (a.is_zero() or b.is_zero())
 
     from ..interp import _cond_key
 
